@@ -12,7 +12,8 @@
 From Coq Require Import List Arith Bool Relations.
 Import ListNotations.
 From RH Require Import Kernel.Conc Kernel.ConcBase Kernel.ConcClosure Kernel.ConcDeadlock
-  Kernel.ConcMeasure Kernel.ConcConfl Kernel.ConcSweep Kernel.ConcGraphs Kernel.ConcProofs.
+  Kernel.ConcMeasure Kernel.ConcConfl Kernel.ConcSweep Kernel.ConcGraphs Kernel.ConcProofs
+  Symtab.Symtab Symtab.SymtabProofs.
 
 (* ---- no deadlock: in every reachable state with unfinished work some worker can step ---- *)
 Theorem C04_deadlock_free : forall deps T td s, wf_deps deps -> todo_ok (length deps) td -> 1 <= T ->
@@ -146,6 +147,46 @@ Theorem C04_finite_sweep : forall n k T deps,
     stuck deps false s = false /\ (final s = true -> locks s = seq_result deps false 200000).
 Proof. exact finite_sweep_quick. Qed.
 
+(* ---- symbol table under the parallel file parser (Symtab/Symtab.v) ----
+   `run lower [] ops` = any schedule of the atomic `insert_new` steps of all parser threads
+   (lookups do not change the table).  After any schedule two spellings have the same id iff
+   they are the same identifier: equal lower-case spelling for basic identifiers, identical
+   spelling for extended ones, an extended identifier never equals a basic one. *)
+Theorem C04_symtab_schedule_independent : forall lower ops t n1 s1 n2 s2, lower_ok lower ->
+  run lower [] ops = Some t -> find t n1 = Some s1 -> find t n2 = Some s2 ->
+  (s_id s1 = s_id s2 <-> norm lower n1 = norm lower n2).
+Proof. exact symtab_schedule_independent. Qed.
+
+(* an insertion never panics, keeps the table well formed, returns the table's entry, and never
+   changes an entry some thread already holds *)
+Theorem C04_symtab_insert_total : forall lower t n, exists t' s, insert_new lower t n (is_ext n) = Some (t', s).
+Proof. exact insert_new_total. Qed.
+
+Theorem C04_symtab_insert_wf : forall lower t n t' s, lower_ok lower -> wf_table lower t ->
+  insert_new lower t n (is_ext n) = Some (t', s) -> wf_table lower t' /\ find t' n = Some s.
+Proof. exact insert_new_wf. Qed.
+
+Theorem C04_symtab_monotone : forall lower t n e t' s m sm, lower_ok lower -> wf_table lower t ->
+  insert_new lower t n e = Some (t', s) -> find t m = Some sm -> find t' m = Some sm.
+Proof. exact insert_new_monotone. Qed.
+
+(* keywords (distinct lower-case basic identifiers inserted first) get and keep the ids 0 .. N-1 *)
+Theorem C04_symtab_keywords : forall lower kws ops t t', lower_ok lower -> NoDup kws ->
+  (forall k, In k kws -> is_ext k = false /\ lower k = k) ->
+  run lower [] kws = Some t -> run lower t ops = Some t' ->
+  forall i k, nth_error kws i = Some k -> exists s, find t' k = Some s /\ s_id s = i.
+Proof. exact keywords_ids. Qed.
+
+(* the hypotheses on `lower` hold for Latin1String::to_lowercase *)
+Theorem C04_symtab_latin1_ok : lower_ok lower_latin1.
+Proof. exact lower_latin1_ok. Qed.
+
+(* without the re-check under the write lock two threads that both missed `\a\` get two ids *)
+Theorem C04_symtab_nocheck_refuted : exists t1 s1 t2 s2,
+  insert_new_nocheck lower_latin1 [] [92; 97; 92] true = Some (t1, s1) /\
+  insert_new_nocheck lower_latin1 t1 [92; 97; 92] true = Some (t2, s2) /\ s_id s1 <> s_id s2.
+Proof. exact nocheck_refuted. Qed.
+
 Check C04_deadlock_free : forall deps T td s, wf_deps deps -> todo_ok (length deps) td -> 1 <= T ->
   reach deps false (init_todo (length deps) T td) s -> final s = false -> succs deps false s <> [].
 Check C04_terminates : forall deps cbo T td s s', wf_deps deps -> todo_ok (length deps) td ->
@@ -196,6 +237,22 @@ Qed.
 Example C04_ex_F16_not_swallow_safe : ~ swallow_safe depsF16.
 Proof. exact depsF16_not_swallow_safe. Qed.
 
+(* symbol table: `Hi`, `hi` and `\hi\` inserted in this order: the first two share an id, the
+   extended identifier has another one; every prefix of a schedule keeps the table well formed *)
+Example C04_ex_symtab : exists t s1 s2 s3,
+  run lower_latin1 [] [[72; 105]; [104; 105]; [92; 104; 105; 92]] = Some t /\ wf_table lower_latin1 t /\
+  find t [72; 105] = Some s1 /\ find t [104; 105] = Some s2 /\ find t [92; 104; 105; 92] = Some s3 /\
+  s_id s1 = s_id s2 /\ s_id s3 <> s_id s2.
+Proof.
+  destruct (run lower_latin1 [] [[72; 105]; [104; 105]; [92; 104; 105; 92]]) as [t | ] eqn:E; [ | vm_compute in E; discriminate].
+  destruct (run_wf lower_latin1 _ [] t lower_latin1_ok (wf_empty lower_latin1) E) as [Hwf _].
+  vm_compute in E. injection E as E. subst t.
+  eexists. eexists. eexists. eexists.
+  split; [reflexivity | ]. split; [exact Hwf | ].
+  split; [vm_compute; reflexivity | ]. split; [vm_compute; reflexivity | ]. split; [vm_compute; reflexivity | ].
+  split; [vm_compute; reflexivity | vm_compute; discriminate].
+Qed.
+
 Print Assumptions C04_deadlock_free.
 Print Assumptions C04_never_self_blocked.
 Print Assumptions C04_terminates.
@@ -215,3 +272,10 @@ Print Assumptions C04_deadlock_old_refuted_2.
 Print Assumptions C04_F4_repaired.
 Print Assumptions C04_order_dependent_refuted.
 Print Assumptions C04_finite_sweep.
+Print Assumptions C04_symtab_schedule_independent.
+Print Assumptions C04_symtab_insert_total.
+Print Assumptions C04_symtab_insert_wf.
+Print Assumptions C04_symtab_monotone.
+Print Assumptions C04_symtab_keywords.
+Print Assumptions C04_symtab_latin1_ok.
+Print Assumptions C04_symtab_nocheck_refuted.
